@@ -145,3 +145,32 @@ def register(mut):
         _next = _gen->next();
         if (_next && false) _next = _gen->next();
         return *this;''', [])
+    mut('agg-controller-no-drain', 'generator_aggregator.h',
+        '''        while (_count>1) {
+            _queue.pop().wait();
+            _count--;
+        }''',
+        '''        while (_count>100) {
+            _queue.pop().wait();
+            _count--;
+        }''', ['C14'])
+    mut('agg-no-fin-on-exception', 'generator_aggregator.h',
+        '''                exp = std::current_exception();
+                cnt.fin();''',
+        '''                exp = std::current_exception();''', ['C14'])
+    mut('agg-recharge-before-yield', 'generator_aggregator.h',
+        '''                    co_yield g.value();
+                    gcb->charge();''',
+        '''                    auto &vv = g.value();
+                    int copy = vv;
+                    gcb->charge();
+                    co_yield copy;''', ['C14'])
+    mut('agg-exception-swallowed', 'generator_aggregator.h',
+        '''    if (exp) std::rethrow_exception(exp);''',
+        '''    if (exp && false) std::rethrow_exception(exp);''', ['C14'])
+    mut('agg-arg-to-all-only-first', 'generator_aggregator.h',
+        '''                    auto arg = co_yield g.value();
+                    gcb->charge(arg);''',
+        '''                    auto arg = co_yield g.value();
+                    static auto first = arg;
+                    gcb->charge(first);''', ['C14'])
